@@ -119,8 +119,9 @@ class Check:
         if broken:
             for b in broken:
                 print("ANALYSIS-BROKEN: %s" % b)
-            self._evidence(total, okc, evals, nontriv, len(violations), broken)
-            return 2
+            if not violations:
+                self._evidence(total, okc, evals, nontriv, len(violations), broken)
+                return 2
         rc = 0
         if violations:
             os.makedirs(os.path.join(VERIF, "reports"), exist_ok=True)
